@@ -15,7 +15,7 @@ text='\n'.join(out)
 if '--inject' in sys.argv:
     d=open('/verif/DESIGN.md').read()
     a=d.index('**C01** quick', d.index('### 10.6'))
-    b=d.index('### 10.7')
+    b=d.index('### 10.6b')
     open('/verif/DESIGN.md','w').write(d[:a]+text+'\n'+d[b:])
 else:
     print(text)
